@@ -2,7 +2,7 @@ SPECIFICATION TSpec
 CONSTANTS
   NKeys = 512
   NVals = 100000
-  Heights = {1, 2, 3}
+  Heights <- TraceHeights
   MaxRoots = 100000
   MaxOps = 100000000
   Batches <- NoBatches
